@@ -4,7 +4,7 @@
 # (scratch copies of /repo and /verif under /tmp/seedbox-regress, removed at the end) and prints one line per seed:
 #   <seed> <property> rc=<exit code> violations=<n> [no-failing-input-found]
 set -u
-BOX=/tmp/seedbox-regress
+BOX=/tmp/seedbox-regress${REGRESS_BOX:-}
 mkdir -p $BOX/repo $BOX/verif
 rsync -a --delete --exclude target /repo/ $BOX/repo/
 rsync -a --delete --exclude .git --exclude replays /verif/ $BOX/verif/
@@ -15,9 +15,9 @@ mount --rbind $BOX/repo /repo && mount --rbind $BOX/verif /verif && cd /verif ||
 for S in $SEEDS; do
   P=\${S:0:3}
   git -C /repo checkout -q -- . ; git -C /repo apply /verif/seeded/\$S/patch.diff || { echo \"\$S \$P patch-does-not-apply\"; continue; }
-  ./check \$P > /tmp/regress-out.txt 2>&1; rc=\$?
-  n=\$(grep -c '^VIOLATION' /tmp/regress-out.txt); nfi=\$(grep -c 'no-failing-input-found' /tmp/regress-out.txt)
+  ./check \$P > /tmp/regress-out${REGRESS_BOX:-}.txt 2>&1; rc=\$?
+  n=\$(grep -c '^VIOLATION' /tmp/regress-out${REGRESS_BOX:-}.txt); nfi=\$(grep -c 'no-failing-input-found' /tmp/regress-out${REGRESS_BOX:-}.txt)
   echo \"\$S \$P rc=\$rc violations=\$n \$([ \$nfi -gt 0 ] && echo no-failing-input-found)\"
   git -C /repo checkout -q -- .
 done"
-rm -rf $BOX /tmp/regress-out.txt
+rm -rf $BOX /tmp/regress-out${REGRESS_BOX:-}.txt
